@@ -77,14 +77,23 @@ LiveOrder(o) ==
 (*  gone     ids handed to a caller by a removal and not added since       *)
 (*  nAdd, nRem, qtyX   what the statistics must report                     *)
 (***************************************************************************)
+(*  allowed[id]   how many tickets of id beyond the one of a resting order the queue may hold BY THE KNOWN   *)
+(*                MECHANISM (KF-C04-2: a removal by id - cancel, move, the remove half of an amend - leaves   *)
+(*                the ticket behind): +1 per successful removal by id, never more than the queue really holds *)
 SeqGhostInit(qm) ==
   [supplied |-> [i \in Ids |-> IF IsOrder(qm[i]) THEN Total(qm[i]) ELSE 0],
    executed |-> ZeroIds, back |-> ZeroIds, disc |-> ZeroIds,
-   issued |-> {}, gone |-> [i \in Ids |-> FALSE], nAdd |-> 0, nRem |-> 0, qtyX |-> 0]
+   issued |-> {}, gone |-> [i \in Ids |-> FALSE], nAdd |-> 0, nRem |-> 0, qtyX |-> 0,
+   allowed |-> ZeroIds]
+
+\* tickets of id i beyond the one a resting order needs
+ExcessTickets(o, i) == Cardinality({k \in DOMAIN o.tickets : o.tickets[k] = i}) - (IF IsOrder(o.qmap[i]) THEN 1 ELSE 0)
+\* every surplus ticket of the observed queue is one the known mechanism accounts for
+LegitTickets(sg, o) == \A i \in Ids : ExcessTickets(o, i) <= sg.allowed[i]
 
 TxQtyOf(txs, i) == SumSeq([k \in DOMAIN txs |-> IF txs[k].maker = i THEN txs[k].qty ELSE 0])
 
-SeqGhostNext(sg, pre, c, r, post) ==
+SeqGhostNext0(sg, pre, c, r, post) ==
   CASE c.op = "add" /\ r.t = "some" ->
          [sg EXCEPT !.supplied[c.o.id] = @ + Total(c.o), !.gone[c.o.id] = FALSE, !.nAdd = @ + 1]
     [] c.op = "add" -> [sg EXCEPT !.nAdd = @ + 1]
@@ -100,6 +109,11 @@ SeqGhostNext(sg, pre, c, r, post) ==
     [] Class(c) = "amend" /\ r.t = "some" /\ c.id \in Live(pre.qmap) ->
          [sg EXCEPT !.supplied[c.id] = @ + Total(r.o) - Total(pre.qmap[c.id])]
     [] OTHER -> sg
+
+SeqGhostNext(sg, pre, c, r, post) ==
+  LET g == SeqGhostNext0(sg, pre, c, r, post)
+      byId(i) == Class(c) \in {"remove", "amend"} /\ r.t = "some" /\ c.id = i
+  IN [g EXCEPT !.allowed = [i \in Ids |-> Min2(sg.allowed[i] + (IF byId(i) THEN 1 ELSE 0), Max2(ExcessTickets(post, i), 0))]]
 
 -----------------------------------------------------------------------------
 (* Observable part of a shared state, for "nothing changed" comparisons *)
@@ -157,12 +171,15 @@ HasDupTicket(s) == \E i \in Live(s.qmap) : Count(s.tickets, i) >= 2
 HasStaleTicket(s) == \E k \in DOMAIN s.tickets : ~IsOrder(s.qmap[s.tickets[k]])
 
 \* set of tags: {} = as the property says; {"KF-..."} = explained known finding; {"unexplained"}
-C04Tags(pre, c, r, post, faithful) ==
-  LET \* `faithful` = [ret, sh, pre]: result, post-state and pre-state of the model of the pinned design
-      \* run on the same calls from the start (never re-anchored on observations)
+C04Tags(pre, c, r, post, faithful, legit) ==
+  LET \* `faithful` = [ret, sh, pre]: what the model of the code predicts for this call from the OBSERVED pre-state.
+      \* `legit`: every surplus ticket of the observed queue, before and after the call, is one that the known
+      \* mechanism accounts for (a removal by id was observed for it) - a defect that leaves tickets behind by any
+      \* other route is not excused, and a benign change that leaves FEWER tickets behind does not confuse the
+      \* attribution (both happened with a model of the pinned queue run alongside).
       predicted == faithful # NoOrder /\ faithful.ret.t = r.t /\ LiveOrder(faithful.sh) = LiveOrder(post)
                    /\ (r.t = "match" => MakerQty(faithful.ret.txs) = MakerQty(r.txs))
-      mstale == faithful # NoOrder /\ (HasDupTicket(faithful.pre) \/ HasStaleTicket(faithful.pre) \/ HasDupTicket(faithful.sh))
+      mstale == legit /\ (HasDupTicket(pre) \/ HasStaleTicket(pre) \/ HasDupTicket(post))
       t1 == IF c.op = "match" /\ r.t = "match"
                /\ MakerQty(r.txs) # IdealMatch(LiveOrder(pre), pre.qmap, c.q, FALSE).txs
             THEN (IF predicted /\ mstale THEN {"KF-C04-2"} ELSE {"unexplained"})
@@ -213,7 +230,7 @@ P_C15(post, sg2) == /\ post.st.added = sg2.nAdd /\ post.st.removed = sg2.nRem
    NoOrder if no prediction is available. *)
 CallVerdict(pre, c, r, post, sg, faithful) ==
   LET sg2 == SeqGhostNext(sg, pre, c, r, post)
-      kf4 == C04Tags(pre, c, r, post, faithful)
+      kf4 == C04Tags(pre, c, r, post, faithful, LegitTickets(sg, pre) /\ LegitTickets(sg2, post))
   IN [bad |-> (IF P_C01(pre, c, r, post, sg) THEN {} ELSE {"C01"})
               \cup (IF P_C02(pre, c, r, post, sg, sg2) THEN {} ELSE {"C02"})
               \cup (IF "unexplained" \in kf4 THEN {"C04"} ELSE {})
